@@ -204,3 +204,72 @@ def _api_attrs(written, want):
     nodes = [c for c in root.children if isinstance(c, WikiNode)]
     got = dict(nodes[0].attrs) if nodes else None
     return ("parse(" + repr("<span " + written + ">x</span>") + ")", got != want, f"attribute map {got!r}, written {want!r}")
+
+
+# ---------------------------------------------------------------- attributes on tables, rows and cells
+def _fresh_table():
+    ctx.start_page("T")
+    root = WikiNode(K.ROOT, 0)
+    ctx.parser_stack = [root]
+    ctx.pre_parse = False
+    ctx.linenum = 5
+    ctx.suppress_special = False
+    ctx.begline_enabled = True
+    ctx.begline_disable_counter = 0
+    ctx.beginning_of_line = False
+    ctx.wsp_beginning_of_line = False
+    return root, _parser_push(ctx, K.TABLE)
+
+
+def table_attr_step(s: str, klen: int, vstart: int, vlen: int) -> bool:
+    """{| <attrs>  then a row token: the text becomes the table's attribute map"""
+    root, table = _fresh_table()
+    table.children.append(" " + s + "\n")
+    ctx.beginning_of_line = True
+    table_row_fn(ctx, "|-")
+    return dict(table.attrs) == {s[:klen]: s[vstart : vstart + vlen]} and [c for c in table.children if isinstance(c, str)] == []
+
+
+def row_attr_step(s: str, klen: int, vstart: int, vlen: int, header: bool) -> bool:
+    """|- <attrs>  then a cell token at line start: the text becomes the row's attribute map"""
+    root, table = _fresh_table()
+    row = _parser_push(ctx, K.TABLE_ROW)
+    row.children.append(" " + s + "\n")
+    ctx.beginning_of_line = True
+    (table_hdr_cell_fn if header else table_cell_fn)(ctx, "!" if header else "|")
+    return dict(row.attrs) == {s[:klen]: s[vstart : vstart + vlen]} and [c for c in row.children if isinstance(c, str)] == [] and ctx.parser_stack[-1].kind == (K.TABLE_HEADER_CELL if header else K.TABLE_CELL)
+
+
+def cell_attr_step(s: str, klen: int, vstart: int, vlen: int, header: bool) -> bool:
+    """| <attrs> | content : the text before the single bar becomes the cell's attribute map"""
+    root, table = _fresh_table()
+    row = _parser_push(ctx, K.TABLE_ROW)
+    cell = _parser_push(ctx, K.TABLE_HEADER_CELL if header else K.TABLE_CELL)
+    cell.children.append(" " + s + " ")
+    before = list(ctx.parser_stack)
+    vbar_fn(ctx, "|")
+    return ctx.parser_stack == before and dict(cell.attrs) == {s[:klen]: s[vstart : vstart + vlen]} and cell.children == []
+
+
+def replay_attr_place(s, klen, vstart, vlen, where, header=False):
+    want = {s[:klen]: s[vstart : vstart + vlen]}
+    if where == "table":
+        doc = "{| " + s + "\n|-\n| x\n|}"
+    elif where == "row":
+        doc = "{|\n|- " + s + "\n" + ("! " if header else "| ") + "x\n|}"
+    else:
+        doc = "{|\n|-\n" + ("! " if header else "| ") + s + " | x\n|}"
+    w = Wtp(quiet=True, quiet_output=True)
+    w.start_page("T")
+    root = w.parse(doc)
+    found = []
+
+    def walk(n):
+        if isinstance(n, WikiNode):
+            if (where == "table" and n.kind == K.TABLE) or (where == "row" and n.kind == K.TABLE_ROW) or (where == "cell" and n.kind in (K.TABLE_CELL, K.TABLE_HEADER_CELL)):
+                found.append(dict(n.attrs))
+            for c in n.children:
+                walk(c)
+
+    walk(root)
+    return ("parse(" + repr(doc) + ")", not found or found[0] != want, f"{where} attributes {found[:1]}, written {want}")
